@@ -10,6 +10,14 @@ COMMON_NOTE = ('Trusted base: z3 4.x/5.1 (python3-vt), the symx forking engine, 
                'reals), sizes beyond the stated bounds, GPU, complex dtypes. ')
 
 CHECKS = {
+ 'C09': dict(
+    text='Semiring.solve, PatternedTensor.solve, multi_solve (both transpose flags) and multi_mv run on the z3-valued tensor model; the returned x is decided to be the least solution by two SMT queries per '
+         'right-hand side over the independently denoted dense system: x = A x + b, and for a fresh universally quantified y: A y + b <= y implies x <= y (Knaster-Tarski), which also settles divergence to the '
+         'infinite element. Arguments are compared cell-wise before/after. Right level: "least solution for all entries" is a quantified statement over values; no iteration or limit is needed.',
+    note='Bounds: dense order n<=2 (Log: n=1; Viterbi/Bool n<=3 thorough), right-hand sides with m<=2 columns; PatternedTensor.solve on well-typed pattern pairs over index types of numel 2 (thorough 3) with <=6 (Log 4) physical entries; '
+         'multi_solve/multi_mv over every present/absent combination of 4 A-blocks x 2 b-blocks on two keys, block shapes (2,),() for Viterbi/Bool (flattened order 3) and scalar blocks for Real/Log (order 2; Log <=2 A-blocks). '
+         'Regimes: T for Viterbi/Bool; for Real/Log every entry class profile zero/positive/infinite (all 3^k for k<=6, seeded sample beyond) with y tagged; comparisons fork the path. torch.linalg.solve is a contract stub.',
+    technique='Knaster-Tarski least-fixed-point SMT queries (z3) over symbolic execution of the real solvers', design='5/C09'),
  'C01': dict(
     text='sum_products / sum_product are executed end to end (SCC ordering, per-SCC method downgrade, F, sum_product_edges, patterned einsum, real torch_semiring_einsum) on the z3-valued tensor model with every factor '
          'entry symbolic; for every nonterminal and every cell the solver decides equality with the definitional sum over rules x node assignments (semiring operations with 0 x inf = 0). Right level: the property is an '
